@@ -904,6 +904,11 @@ func ToInt(any any) (int, error) {
 	// This way of casting values to float64 is inefficient
 	// I have used this technique to avoid writing a long
 	// switch case only.
+	// whole floating point numbers are converted directly: their %v form
+	// switches to exponent notation from 1e+06 on, which Atoi cannot read
+	if float, ok := any.(float64); ok && float == math.Trunc(float) && math.Abs(float) < 1<<63 {
+		return int(float), nil
+	}
 	number, err := strconv.Atoi(fmt.Sprintf("%v", any))
 	if err != nil {
 		return 0, err
